@@ -339,6 +339,22 @@ func genCase(rng *lib.Rng, r *lib.Run, kind string) *sched.Case {
 		c.Targets[rng.Intn(n)].Fail = "undef"
 	case "bad":
 		c.BadPkg = []int{rng.Intn(pkgs)}
+	case "badwait":
+		// several parse tasks end up waiting for one package whose BUILD file does not parse
+		x := len(c.Targets)
+		c.Targets = append(c.Targets, sched.Target{Pkg: pkgs, SleepMs: 1})
+		k := 0
+		for i := 0; i < x; i++ {
+			if rng.Chance(60) || i == n-1 {
+				c.Targets[i].Deps = append(c.Targets[i].Deps, x)
+				k++
+			}
+		}
+		c.BadPkg = []int{pkgs}
+		c.Par = 16
+		if k >= 3 {
+			r.Count("bad-package-with-3+-waiters")
+		}
 	case "miss":
 		// a separate package that does not exist, referenced by one target
 		t := rng.Intn(n)
@@ -379,7 +395,7 @@ func main() {
 	if os.Getenv("VERIF_PLZ") == "" {
 		panic("VERIF_PLZ not set")
 	}
-	kinds := []string{"none", "exit", "exit", "exit", "undef", "bad", "miss", "cycle"}
+	kinds := []string{"none", "exit", "exit", "exit", "undef", "bad", "miss", "cycle", "badwait"}
 	var cases []*sched.Case
 	for i := 0; i < r.N(40, 200); i++ {
 		cases = append(cases, genCase(r.Rng, r, kinds[i%len(kinds)]))
